@@ -492,6 +492,7 @@ func main() {
 	}
 	run.Floor("tunnels_verified", int64(len(routes)*n*8/10))
 	run.Floor("bytes_verified", 1<<20)
+	tunnelEndsDuringShutdown(run, hb)
 	wiring.Run(run, "C03")
 	run.Finish()
 }
